@@ -131,9 +131,11 @@ pub fn dec_by_type(ty: &str, text: &str) -> Option<String> {
 
 pub const JTYPES: [&str; 12] = ["order", "update", "id", "side", "tif", "peg", "tx", "mr", "stats", "snapj", "leveldata", "pkg"];
 
-fn rsnap(r: &mut Rng, consistent: bool) -> String {
+fn rsnap(r: &mut Rng, consistent: bool, allow_huge: bool) -> String {
     let n = r.below(4);
-    let huge = r.chance(1, 8);
+    // (not for E-snap: a level whose sums pass 2^64 is outside the snapshot properties' quantifier — its own
+    // package saturates what the live counters wrapped)
+    let huge = r.chance(1, 8) && allow_huge;
     let mut v: Vec<Order> = Vec::new();
     for i in 0..n {
         let o = rorder(r, Some(10 + i * 3));
@@ -167,10 +169,10 @@ pub fn rjvalue(r: &mut Rng, ty: &str) -> String {
     match ty {
         "snapj" | "leveldata" => {
             let c = r.chance(1, 2);
-            rsnap(r, c)
+            rsnap(r, c, true)
         }
         "pkg" => {
-            let s = rsnap(r, true);
+            let s = rsnap(r, true, true);
             let snap = parse_snap(&s).unwrap();
             match PriceLevelSnapshotPackage::new(snap) {
                 Ok(p) => format!("{}#{}#{}", if r.chance(1, 6) { 2 } else { p.version }, show_snap(&p.snapshot), if r.chance(1, 6) { "00ff".to_string() } else { p.checksum }),
@@ -200,7 +202,7 @@ pub fn gen_snap(seed: u64, nlevels: u64, subs_per_level: u64, exhaustive: bool, 
     let mut r = Rng::new(seed ^ 0x534e_4150);
     let mut case = 0u64;
     for _ in 0..nlevels {
-        let s = rsnap(&mut r, true);
+        let s = rsnap(&mut r, true, false);
         let snap = parse_snap(&s).unwrap();
         let header = |out: &crate::gens::Sink, case: &mut u64| {
             out.push(format!("case {case}"));
@@ -269,7 +271,7 @@ pub fn leveldata_expect(v: &str) -> String {
 /// structural mutations of a JSON document, enumerated deterministically: every node (by JSON pointer)
 /// x {delete, null, boundary numbers, other strings, empty container}
 #[derive(Clone, Debug)]
-pub enum SMut { Delete, Null, Num(usize), Str(usize), Empty }
+pub enum SMut { Delete, Null, Num(usize), Str(usize), Empty, Hoist }
 
 const SX_NUMS: [&str; 9] = ["0", "1", "9007199254740993", "9223372036854775808", "18446744073709551615", "1152921504606846976", "-1", "1e30", "0.5"];
 const SX_STRS: [&str; 3] = ["", "x", "BUY"];
@@ -277,6 +279,7 @@ const SX_STRS: [&str; 3] = ["", "x", "BUY"];
 fn sx_nodes(v: &serde_json::Value, path: &str, depth: usize, maxdepth: usize, out: &mut Vec<(String, SMut)>) {
     use serde_json::Value;
     if !path.is_empty() {
+        if depth == 1 { out.push((path.to_string(), SMut::Hoist)); } // the document becomes this member
         out.push((path.to_string(), SMut::Delete));
         if !v.is_null() { out.push((path.to_string(), SMut::Null)); }
         match v {
@@ -313,6 +316,7 @@ fn sx_apply(v: &mut serde_json::Value, path: &str, m: &SMut) -> Option<()> {
                 _ => return None,
             }
         }
+        SMut::Hoist => { let inner = v.pointer(path)?.clone(); *v = inner; }
         SMut::Null => *v.pointer_mut(path)? = Value::Null,
         SMut::Num(i) => *v.pointer_mut(path)? = serde_json::from_str(SX_NUMS[*i]).ok()?,
         SMut::Str(i) => *v.pointer_mut(path)? = Value::String(SX_STRS[*i].to_string()),
